@@ -261,8 +261,45 @@ def find_flatteners(model: Model, rep: Report) -> set:
     sa = SetAlg()
     pending = list(mod_funcs)
     verdicts: dict = {}
+    # pure delegates: `def flat_product(p): return flat_seq(p.expressions)` / `return flat(p)`.  Two flatteners that call each other are verified by
+    # MUTUAL induction: inside the sibling's body a call of the delegate stands for the sibling's own call on the delegate's argument, and once the
+    # sibling is verified the delegate denotes what the sibling denotes there (every call goes to strictly smaller structures).
+    deleg: dict = {}
+    for fn in mod_funcs:
+        a = fn.node.args
+        params = [x.arg for x in a.posonlyargs + a.args]
+        if len(params) != 1:
+            continue
+        try:
+            paths = return_paths(Evaluator(model, primitives=names - {fn.qname}).run(fn, {params[0]: var(params[0])}))
+        except Exception:  # noqa: BLE001
+            continue
+        if len(paths) != 1 or paths[0].conds:
+            continue
+        v = paths[0].value
+        while v[0] == "call" and v[1] in ("iter", "list", "tuple") and len(v[2]) == 1:
+            v = v[2][0]
+        if v[0] in ("recurse", "call") and isinstance(v[1], str) and v[1] in names and v[1] != fn.qname:
+            args_ = list(v[2]) + [x for _, x in v[3]]
+            if len(args_) == 1 and args_[0] == var(params[0]):
+                deleg[fn.qname] = (v[1], "same", fn)
+            elif len(args_) == 1 and args_[0] == ("attr", var(params[0]), "expressions"):
+                deleg[fn.qname] = (v[1], "factors", fn)
     for _round in range(3):
+        for q_, (sib_, form_, fn_) in sorted(deleg.items()):
+            if q_ not in FLATTENERS and sib_ in FLATTENERS:
+                k_sib = FLATTENERS[sib_]
+                k_new = k_sib if form_ == "same" else "product" if k_sib == "seq" else None
+                if k_new is None:
+                    verdicts[q_] = (False, "hands the factors of its argument to a routine that expands the factors again", fn_)
+                else:
+                    FLATTENERS[q_] = k_new
+                    verdicts[q_] = (True, "", fn_)
+                if fn_ in pending:
+                    pending.remove(fn_)
         for fn in list(pending):
+            if fn.qname in deleg:
+                continue
             a = fn.node.args
             params = [x.arg for x in a.posonlyargs + a.args]
             if len(params) != 1:
@@ -318,9 +355,14 @@ def find_flatteners(model: Model, rep: Report) -> set:
                     pl = pl[2][0]
                 if pl == ("listlit", (pat,)):
                     continue  # the element itself
-                if pl[0] in ("recurse", "call") and isinstance(pl[1], str) and (pl[1] == fn.qname or pl[1] in FLATTENERS):
-                    callee_kind = kind if pl[1] == fn.qname else FLATTENERS[pl[1]]
-                    arg = (list(pl[2]) + [v for _, v in pl[3]])[0]
+                target = pl[1] if pl[0] in ("recurse", "call") and isinstance(pl[1], str) else None
+                arg = (list(pl[2]) + [v for _, v in pl[3]])[0] if target is not None and (pl[2] or pl[3]) else None
+                if target in deleg and target not in FLATTENERS and arg is not None:
+                    target, form_ = deleg[target][0], deleg[target][1]
+                    if form_ == "factors":
+                        arg = ("attr", arg, "expressions")
+                if target is not None and arg is not None and (target == fn.qname or target in FLATTENERS):
+                    callee_kind = kind if target == fn.qname else FLATTENERS[target]
                     is_prod = sa.cond(("isinstance", pat, (f"{DSL}.Product",)))
                     guarded = compare(f_and(c, f_not(is_prod)), False)[0]
                     good_arg = arg == (pat if callee_kind == "product" else ("attr", pat, "expressions"))
